@@ -1,7 +1,7 @@
 (* run_case: the single entry point of the extracted model.  One case term in, one observation
    term out; the same function is evaluated with vm_compute for the extraction cross-check. *)
 From Coq Require Import String.
-From AvroV Require Import Base Varint Schema Bytes Names Codec Conforms Layout Validate Rabin SingleObject Resolve Compat Resolution Container Sink Settings Sexp Lit SchemaJson PCF Parser CodecFrame.
+From AvroV Require Import Base Varint Schema Bytes Names Codec Conforms Layout Validate Rabin SingleObject Resolve Compat Resolution Container Sink Settings Sexp Lit SchemaJson PCF Parser CodecFrame BlockAudit.
 Local Open Scope string_scope.
 
 Definition run_fuel : nat := 300.
@@ -95,8 +95,11 @@ Definition run_case (x : sexp) : sexp :=
       | [sx; vx] =>
         match schema_of conv_fuel sx, value_of conv_fuel vx with
         | Some s, Some v =>
-          obs_of_res (fun b => [Hex b])
-            (do nmz <- resolved s; encode run_fuel nmz None s v)
+          (* ResolvedSchema::try_from fails before anything is written: no writer can be built *)
+          match resolved s with
+          | Err => L [Sym "writer-err"]
+          | r => obs_of_res (fun b => [Hex b]) (do nmz <- r; encode run_fuel nmz None s v)
+          end
         | _, _ => obs_bad
         end
       | _ => obs_bad
@@ -108,6 +111,17 @@ Definition run_case (x : sexp) : sexp :=
         | Some c, Some s =>
           obs_of_res (fun vr => [sexp_of_value (fst vr); Hex (snd vr)])
             (do nmz <- resolved s; decode run_fuel c nmz None s b)
+        | _, _ => obs_bad
+        end
+      | _ => obs_bad
+      end
+    else if op =? "audit" then
+      (* (audit CFG SCHEMA #bytes) : strict reading of block byte sizes; the bytes left over *)
+      match args with
+      | [cx; sx; Hex b] =>
+        match cfg_of cx, schema_of conv_fuel sx with
+        | Some c, Some s =>
+          obs_of_res (fun r => [Hex r]) (do nmz <- resolved s; audit run_fuel c nmz None s b)
         | _, _ => obs_bad
         end
       | _ => obs_bad
@@ -262,7 +276,7 @@ Definition run_case (x : sexp) : sexp :=
                obs_of_res (fun x => [sexp_of_value x]) (resolve run_fuel c nmz None s v);
                obs_of_res (fun b => [Hex b]) (write_value run_fuel find true nmz s v);
                obs_of_res (fun b => [Hex b]) (so_datum run_fuel find nmz s v)]
-          | _ => obs_err
+          | _ => L [Sym "unresolvable"]      (* Value::validate panics as documented, no writer can be built *)
           end
         | _, _, _ => obs_bad
         end
